@@ -87,8 +87,11 @@ func wSocket(iters int) {
 	rt, a, b := twoHosts()
 	defer rt.Stop()
 	for k := 0; k < iters/50+1; k++ {
-		ca, _ := a.ListenUDP("udp", vn.UDP("10.0.0.1", 5000))
-		cb, _ := b.ListenUDP("udp", vn.UDP("10.0.0.2", 5000))
+		ca, err1 := a.ListenUDP("udp", vn.UDP("10.0.0.1", 5000))
+		cb, err2 := b.ListenUDP("udp", vn.UDP("10.0.0.2", 5000))
+		if err1 != nil || err2 != nil {
+			panic(fmt.Sprint("races harness: bind failed: ", err1, err2))
+		}
 		var stop int32
 		var wg sync.WaitGroup
 		for g := 0; g < 3; g++ {
@@ -125,11 +128,13 @@ func wSocket(iters int) {
 			}
 		}()
 		time.Sleep(15 * time.Millisecond)
-		go ca.Close()
+		closed := make(chan struct{})
+		go func() { ca.Close(); close(closed) }()
 		cb.Close()
 		atomic.StoreInt32(&stop, 1)
 		ca.SetReadDeadline(time.Now().Add(-time.Second))
 		wg.Wait()
+		<-closed // the address must be free again before the next round binds it
 	}
 }
 
